@@ -48,6 +48,7 @@ func c04Menu() []sim.TxSpec {
 }
 
 type c04Case struct {
+	EVMProg []int `json:"evmProg,omitempty"` // EVM-interplay case: a C17 program run in C17's family 2, judged for nonces only
 	Seq []int `json:"seq"`
 	Cut int   `json:"cut"` // bit i set = new block after element i
 	Lv  int   `json:"lv"`
@@ -63,7 +64,7 @@ func init() { engine.Register("C04", func() engine.Check { return &c04{} }) }
 func (c *c04) ID() string { return "C04" }
 func (c *c04) Meta() engine.Meta {
 	m := modelMeta("exhaustive enumeration of delivery sequences of concrete signed transactions (with repetition, every block cut) on the real application, reference model + at-most-once oracle",
-		"C04: two senders, 14 CONCRETE signed transactions (fixed nonce and time stamp, hence identical bytes whenever delivered): transfers with nonce 0/1/2, a second sender's transfers, a contract deployment with nonce 0/1, calls of the deployed contract with nonce 1/2, a plain transfer to the contract address, setdoc with nonce 0/1, setdoc ADDRESSED to the contract account with nonce 1/2; ALL sequences with repetition of length 3 (quick) / 4 (thorough), each cut into blocks at every possible place, after a 2-block warm-up. "+
+		"C04: two senders, 14 CONCRETE signed transactions (fixed nonce and time stamp, hence identical bytes whenever delivered): transfers with nonce 0/1/2, a second sender's transfers, a contract deployment with nonce 0/1, calls of the deployed contract with nonce 1/2, a plain transfer to the contract address, setdoc with nonce 0/1, setdoc ADDRESSED to the contract account with nonce 1/2; ALL sequences with repetition of length 3 (quick) / 4 (thorough), each cut into blocks at every possible place, after a 2-block warm-up; plus EVM-interplay cases: every gadget program up to length 2 of C17's alphabet in a history where an account takes part in a contract transaction, then sends native transactions (one of them a replay), then is first touched inside a reverting inner call frame. "+
 			"Oracle: success => tx nonce == account nonce before (model); after success nonce +1, after failure unchanged (state comparison at every height, native and EVM write-back paths alike); every signed transaction (by its hash) succeeds at most once over the whole history.")
 	m.LevelName = "length of the delivery sequence"
 	return m
@@ -97,6 +98,17 @@ func (c *c04) Prepare(tier string, seed int64) error {
 			}
 		}
 	}
+	// EVM interplay: every gadget program up to length 2 in the family in which an account takes part in a contract
+	// transaction, then sends native transactions, then is first touched inside a (possibly reverting) inner frame.
+	ng := len(c17Gadgets())
+	for a := 0; a < ng; a++ {
+		c.cases = append(c.cases, c04Case{EVMProg: []int{a}, Lv: 1})
+		if !c17Gadgets()[a].Term {
+			for b := 0; b < ng; b++ {
+				c.cases = append(c.cases, c04Case{EVMProg: []int{a, b}, Lv: 2})
+			}
+		}
+	}
 	return nil
 }
 
@@ -109,6 +121,41 @@ func (c *c04) RunDesc(desc json.RawMessage) engine.Result {
 	_ = json.Unmarshal(desc, &cs)
 	if c.menu == nil {
 		c.menu = c04Menu()
+	}
+	if len(cs.EVMProg) > 0 {
+		res, findings, _, names, mr := c17Run(c17Case{Prog: cs.EVMProg, Family: 2})
+		if mr != nil && mr.Res != nil {
+			defer mr.Res.Cleanup()
+		}
+		if res.Err != "" {
+			return res
+		}
+		okBy := map[string]int{}
+		for _, b := range mr.Res.Outcomes {
+			for _, o := range b {
+				if o.Code == 0 && o.Rec.Panic == "" {
+					okBy[hexU(o.Hash)]++
+				}
+			}
+		}
+		for hsh, n := range okBy {
+			if n > 1 {
+				findings = append(findings, refmodel.Finding{Prop: "C04", Kind: "signed-tx-took-effect-twice", Site: "replay", Detail: fmt.Sprintf("the signed transaction %s succeeded %d times", hsh, n)})
+			}
+		}
+		res.Violations = nil
+		for _, f := range findings {
+			if f.Prop != "C04" {
+				continue
+			}
+			if f.Kind == "nonce-mismatch" && strings.Contains(f.Detail, "model 0") && strings.Contains(strings.Join(names, ";"), "selfdestruct") {
+				continue // the self-destructed contract's native record: C17's known finding, not a sender nonce
+			}
+			res.Violations = append(res.Violations, engine.Violation{Property: "C04", Kind: f.Kind, Site: "evm-interplay:" + f.Site, Detail: fmt.Sprintf("%s\n program [%s] in the EVM-interplay family", f.Detail, strings.Join(names, " ; ")), Case: desc})
+			break
+		}
+		res.Nontrivial = mr.TxOK > 0 && mr.TxFail > 0
+		return res
 	}
 	res := engine.Result{}
 	h := sim.History{Gen: genesis3(), Blocks: []sim.Block{blk(), blk()}}
